@@ -1,6 +1,7 @@
 package dkg_proposal_fsm
 
 import (
+	"bytes"
 	"errors"
 	"fmt"
 	"reflect"
@@ -407,6 +408,19 @@ func (m *DKGProposalFSM) actionMasterKeyConfirmationReceived(inEvent fsm.Event, 
 
 	if dkgProposalParticipant.Status != internal.MasterKeyAwaitConfirmation {
 		err = fmt.Errorf("cannot confirm response with {Status} = {\"%s\"}", dkgProposalParticipant.Status)
+		return
+	}
+
+	// All participants must announce the same public polynomial: it is the one
+	// kept for signature reconstruction, so a differing announcement aborts the round.
+	if len(m.payload.DKGProposalPayload.PubPolyBz) > 0 &&
+		!bytes.Equal(m.payload.DKGProposalPayload.PubPolyBz, request.PubPolyBz) {
+		for _, participant := range m.payload.DKGProposalPayload.Quorum {
+			participant.Status = internal.MasterKeyConfirmationError
+			participant.Error = requests.NewFSMError(errors.New("public polynomial is mismatched"))
+		}
+		m.payload.DKGProposalPayload.UpdatedAt = request.CreatedAt
+		outEvent = eventDKGMasterKeyConfirmationCancelByErrorInternal
 		return
 	}
 
